@@ -314,6 +314,9 @@ fn damage(rng: &mut Rng, bytes: &mut Vec<u8>) -> &'static str {
 }
 
 pub fn gen_target(rng: &mut Rng) -> Target {
+	if rng.chance(1, 5) {
+		return Target::AltHints(rng.next_u64());
+	}
 	match rng.below(10) {
 		0..=3 => Target::capture(),
 		4 => Target::Capture {
